@@ -16,7 +16,7 @@ RULE = (
     "header) and one outside (outbuild); databases whose entries spell `directory` as absent / absolute / relative to the "
     "root / with ./ and .. segments, `file` as absolute or relative to that directory (with redundant segments), and -I "
     "values as absolute or relative to the directory (incl. `-I.`), mixed with entries for missing files, object files, "
-    "link commands, non-source files, `command: \"\"` and `arguments: []`. Oracle: an independent path model (directory "
+    "link commands, non-source files, files that exist relative to the root but not relative to the entry's directory, `command: \"\"` and `arguments: []`; a generated source file in the outside build directory may be an entry too. Oracle: an independent path model (directory "
     "relative to the root unless absolute; file and -I relative to the directory) gives entry['file'] and "
     "entry['include_paths']; the reference preprocessor model on the canonical paths gives the per-line attribution; "
     "`gcc -E` run with the entry's own arguments from the entry's directory confirms which marker lines a compiler uses. "
@@ -64,6 +64,10 @@ def case_strategy():
             body = draw(gen_pp.item_lists(1, gen_pp.NAMES, max_items=3, raw=False))
             tree[h] = {"items": [["code", 1]] + body, "style": draw(gen_pp.styles())}
         srcs = ["cb/src/main.c"] + (["cb/src/util.cpp"] if draw(st.booleans()) else []) + (["cb/lib/extra.c"] if draw(st.booleans()) else [])
+        # a generated source in the build directory outside the root: its own lines are not in the
+        # code base, but the in-root headers it includes are
+        if draw(st.integers(0, 2)) == 0:
+            srcs.append("outbuild/gen.c")
         plats = {}
         entries = {}
         all_dirsets = []
@@ -82,6 +86,8 @@ def case_strategy():
             quote_ok = set(angle_ok)
             if s.startswith("cb/src/") and "cb/src/inc/k.h" in present:
                 quote_ok.add("inc/k.h")
+            if s.startswith("outbuild/"):
+                quote_ok |= {os.path.basename(h) for h in present if HDRS[h] == "outbuild"}
             inc = gen_pp.include_items(quote_ok, angle_ok)
             items = draw(gen_pp.item_lists(2, gen_pp.NAMES, extra=inc, max_items=5, raw=False))
             if inc is not None and not any(i[0] == "include" for i in items):
@@ -103,7 +109,7 @@ def case_strategy():
                         "as_command": draw(st.booleans()),
                     }
                 )
-        bad = {p: draw(st.lists(st.sampled_from(["missing", "object", "link", "empty-command", "empty-arguments", "text"]), max_size=3)) for p in plats}
+        bad = {p: draw(st.lists(st.sampled_from(["missing", "object", "link", "empty-command", "empty-arguments", "text", "missing-there", "missing-there-out"]), max_size=3)) for p in plats}
         return {"tree": tree, "platforms": plats, "entries": entries, "bad": bad, "cbroot": "cb", "plain": draw(st.booleans())}
 
     return case()
@@ -148,6 +154,11 @@ def build_entry(top, root, cmd, sp):
 def bad_entry(kind, top, root, i):
     if kind == "missing":
         return {"directory": root, "file": f"src/generated{i}.c", "arguments": ["gcc", "-c", f"src/generated{i}.c"]}, f"generated{i}.c"
+    if kind == "missing-there":
+        # exists relative to the root, but not relative to the entry's directory
+        return {"directory": "build", "file": "src/never.c", "arguments": ["gcc", "-DNEVER", "-c", "src/never.c"]}, "never.c"
+    if kind == "missing-there-out":
+        return {"directory": "../outbuild", "file": "src/never.c", "command": "gcc -c src/never.c"}, "never.c"
     if kind == "object":
         return {"directory": root, "file": "build/main.o", "arguments": ["gcc", "-o", "a.out", "build/main.o"]}, "main.o"
     if kind == "link":
